@@ -390,6 +390,12 @@ func corpusLT(cfg *config) []string {
 		db := laptimer.NewDB()
 		db.Laps = []laptimer.Lap{{Date: laptimer.LapDate(time.Unix(1654000000, 0)), Track: "q\" a' & < > \t \n \r", Note: "x"}}
 		ops = append(ops, "rt P="+cfg.prop+" D=1 "+strings.Join(ltDumpDB(db), " "))
+		// a text element well beyond 64 KiB (many entity-dense lines), and one line of 70 KB
+		dbl := laptimer.NewDB()
+		dbl.Laps = []laptimer.Lap{{Date: laptimer.LapDate(time.Unix(1654000000, 0)), Track: "t",
+			Note: strings.Repeat("Session 3: tyres \"cold\", rear stepped out at St Mary's\n", 1500)},
+			{Date: laptimer.LapDate(time.Unix(1654000100, 0)), Track: strings.Repeat("long & <wide> ", 5000), Note: "after"}}
+		ops = append(ops, "rt P="+cfg.prop+" D=1 "+strings.Join(ltDumpDB(dbl), " "))
 		// past model/implementation disagreements (minimised)
 		for _, doc := range []string{
 			"<?'ml version=\"1.0\"?><LapTimerDB><name>x</name></LapTimerDB>",
